@@ -110,6 +110,19 @@ impl MersenneTwister {
         Self::with_seed(unsafe { (*ptr & 0xffffffff) as u32 })
     }
 
+    /// Verification hook: a generator whose next raw output is taken from the given state.
+    #[cfg(scad_tree_verif)]
+    pub fn verif_from_state(buffer: Vec<u32>, index: usize) -> Self {
+        assert!(buffer.len() == STATE_VECTOR_LENGTH);
+        MersenneTwister { buffer, index }
+    }
+
+    /// Verification hook: the current state.
+    #[cfg(scad_tree_verif)]
+    pub fn verif_state(&self) -> (Vec<u32>, usize) {
+        (self.buffer.clone(), self.index)
+    }
+
     /// Create a MersenneTwister with the given seed.
     pub fn with_seed(seed: u32) -> Self {
         let mut result = MersenneTwister {
